@@ -2,8 +2,8 @@ SPECIFICATION Spec
 CONSTANTS
  SeqLen = 9
  GuardLow = TRUE
- CapHigh = FALSE
- AcceptAtFloor = TRUE
+ CapHigh = TRUE
+ AcceptAtFloor = FALSE
 INVARIANT TypeOK
 INVARIANT TargetInRange
 INVARIANT KBound
